@@ -741,3 +741,20 @@ Proof.
   intros u n. unfold reach. rewrite (subtree_ext w w' ir Hk). destruct (Hn n) as [_ [_ [Un _]]]. rewrite Un.
   apply Hget.
 Qed.
+
+(* the reach characterisation in terms of Forest *)
+Lemma reach_forest w known ir n : Forest w known -> kindof w ir = KIR ->
+  (In n (reach w ir) <-> n = ir \/ ir_of w n = Some ir).
+Proof.
+  intros Hf Hir. unfold reach. apply (reach_iff w (forest_two_ended _ _ Hf) (forest_kind_ok _ _ Hf) ir n Hir).
+Qed.
+
+(* a node of a leaf kind has no children *)
+Lemma leaf_no_kids w known v : Forest w known ->
+  kindof w v = KCode \/ kindof w v = KData \/ kindof w v = KSym \/ kindof w v = KProxy -> kids w v = [].
+Proof.
+  intros Hf Hk. destruct (kids w v) as [|x l] eqn:E; [reflexivity|]. exfalso.
+  assert (In x (kids w v)) as Hin by (rewrite E; left; reflexivity).
+  apply (f_two_ended _ _ Hf) in Hin. destruct (f_kind _ _ Hf _ _ Hin) as [_ [_ Hpk]].
+  destruct Hk as [Hk|[Hk|[Hk|Hk]]]; rewrite Hk in Hpk; destruct (kindof w x); cbn [parent_kind] in Hpk; discriminate Hpk.
+Qed.
